@@ -2,6 +2,7 @@
 From Coq Require Import ZArith List Bool.
 From C01 Require Import Lang.
 Import ListNotations.
+Definition SWhile0 (c : expr) (b : stmt) : stmt := SWhile c b SPass.
 
 Definition loop_cap_prog : prog :=
   {| p_classes := [];
@@ -19,7 +20,7 @@ Definition loop_cap_prog : prog :=
       (SSeq (SAssign 6 ENone)
       (SSeq (SAssign 7 ENone)
       (SSeq (SDecl 8 TInt (EInt (0)%Z))
-      (SSeq (SWhile (EBin BLt (EVar 8) (EVar 1)) (SSeq (SAssign 8 (EBin BAdd (EVar 8) (EInt (1)%Z)))
+      (SSeq (SWhile0 (EBin BLt (EVar 8) (EVar 1)) (SSeq (SAssign 8 (EBin BAdd (EVar 8) (EInt (1)%Z)))
       (SSeq (SAssign 7 (EVar 6))
       (SSeq (SAssign 6 (EVar 5))
       (SSeq (SAssign 5 (EVar 4))
@@ -46,7 +47,7 @@ Definition loop_cap_attr_prog : prog :=
       (SSeq (SAssign 6 (ENew 1 [(EInt (5)%Z)]))
       (SSeq (SAssign 7 (ENew 1 [(EInt (5)%Z)]))
       (SSeq (SDecl 8 TInt (EInt (0)%Z))
-      (SSeq (SWhile (EBin BLt (EVar 8) (EVar 1)) (SSeq (SAssign 8 (EBin BAdd (EVar 8) (EInt (1)%Z)))
+      (SSeq (SWhile0 (EBin BLt (EVar 8) (EVar 1)) (SSeq (SAssign 8 (EBin BAdd (EVar 8) (EInt (1)%Z)))
       (SSeq (SAssign 7 (EVar 6))
       (SSeq (SAssign 6 (EVar 5))
       (SSeq (SAssign 5 (EVar 4))
@@ -87,7 +88,7 @@ Definition loop_class_prog : prog :=
                           c_line := 0 |})];
      p_funcs := [(1, {| f_params := [(1, TUnion [TInt; TNone])]; f_ret := TInt; f_body :=
         SSeq (SDecl 2 TInt (EInt 0%Z))
-       (SSeq (SWhile (EBin BLt (EVar 2) (EInt 3%Z))
+       (SSeq (SWhile0 (EBin BLt (EVar 2) (EInt 3%Z))
                 (SSeq (SAssign 2 (EBin BAdd (EVar 2) (EInt 1%Z)))
                       (SIf (EIsNone (EVar 1)) (SAssign 1 (ECallM (ENew 1 [EVar 2]) 1 [])) SPass)))
              (SReturn (ECond (EIsNone (EVar 1)) (EInt 0%Z) (EVar 1))));
